@@ -138,10 +138,12 @@ def classes(ctx, dev, dev3, other):
     # one more / one fewer hole or terminal (sorting last or first by name), a moved hole, another London length
     from tdgl.geometry import circle
 
-    def variant(holes=(), extra_terminals=(), lam=None):
+    def variant(holes=(), extra_terminals=(), lam=None, thick=None):
         L = dev.layer.copy()
         if lam is not None:
             L.london_lambda = lam
+        if thick is not None:
+            L.thickness = thick
         d = tdgl.Device(dev.name, layer=L, film=dev.film.copy(), holes=list(holes), terminals=[t.copy() for t in dev.terminals] + list(extra_terminals),
                         probe_points=dev.probe_points, length_units=dev.length_units)
         for mel in (1.4, 1.2, 1.0, 0.8):
@@ -167,6 +169,9 @@ def classes(ctx, dev, dev3, other):
         ("three(last)->two-terminals", variant(extra_terminals=[top]), base),
         ("two-terminals->three(first)", base, variant(extra_terminals=[atap])),
         ("other-london-length", variant(lam=dev.layer.london_lambda * 1.5), base),
+        # another film with the SAME effective penetration depth lambda^2 / d (bit for bit): still another device
+        ("other-film-same-Lambda", variant(lam=dev.layer.london_lambda * 2.0, thick=dev.layer.thickness * 4.0), base),
+        ("other-thickness", base, variant(thick=dev.layer.thickness * 2.0)),
     ]
     # Device.__eq__ / the seed guard vs the Lean model (devEq, seedGuard in Tdgl/DeviceEq.lean), on these pairs, on
     # the pairs in reverse, and on each device against a copy whose holes / terminals are listed in another order
